@@ -14,6 +14,32 @@ use tiny_std::allocator::dlmalloc::Dlmalloc;
 #[path = "/verif/engines/sysmon/marker.rs"]
 mod marker;
 
+extern "C" {
+    fn mmap(addr: *mut u8, len: usize, prot: i32, flags: i32, fd: i32, off: i64) -> *mut u8;
+    fn munmap(addr: *mut u8, len: usize) -> i32;
+}
+/// foreign mappings: PROT_NONE, MAP_PRIVATE | MAP_ANONYMOUS | MAP_NORESERVE, straight from libc
+struct LibcOs;
+impl Os for LibcOs {
+    unsafe fn map(&mut self, len: usize) -> usize {
+        let p = mmap(std::ptr::null_mut(), len, 0, 0x4022, -1, 0);
+        if p as isize == -1 {
+            0
+        } else {
+            p as usize
+        }
+    }
+    unsafe fn unmap(&mut self, addr: usize, len: usize) {
+        munmap(addr as *mut u8, len);
+    }
+}
+fn foreign_of(a: &vh::Args) -> Foreign {
+    a.rest
+        .iter()
+        .find_map(|s| s.strip_prefix("foreign=").and_then(Foreign::by_name))
+        .unwrap_or_else(|| Foreign::new(0))
+}
+
 struct Private(Dlmalloc);
 impl Heap for Private {
     #[inline]
@@ -60,28 +86,40 @@ fn main() {
     let mut heap = Private(Dlmalloc::new());
     let mut total = RepStats::default();
     let base_vm = vmsize_pages();
+    let mut foreign = foreign_of(&a);
+    let mut fr = Prng::new(a.seed ^ 0xF0E1);
+    let mut max_segments = 0usize;
     println!("B 0");
     marker::begin(4, 0, 0);
     WHERE.store(W_ALLOC_CALL, Relaxed);
     for rep in 0..a.budget {
         let mut st = RepStats::default();
         unsafe {
+            // something else maps memory where the heap would have grown contiguously
+            foreign.before(&mut LibcOs, &mut fr);
             rep_allocate(&mut heap, shape, &plan, &mut slots, &mut st);
+            max_segments = max_segments.max(heap.0.verif_stats().segments);
             if samples_mid(shape) {
                 let s = heap.0.verif_stats();
-                println!("R {} {} 0 {}", rep, s.footprint / 4096, vmsize_pages().saturating_sub(base_vm));
+                println!("R {} {} 0 {}", rep, s.footprint / 4096, vmsize_pages().saturating_sub(base_vm + (foreign.bytes / 4096) as u64));
             }
             rep_free(&mut heap, order, a.seed ^ rep.wrapping_mul(0x9E37_79B9), &mut slots, &mut st);
+            max_segments = max_segments.max(heap.0.verif_stats().segments);
+            if foreign.policy != 0 {
+                rep_flush(&mut heap, &mut st);
+                max_segments = max_segments.max(heap.0.verif_stats().segments);
+            }
+            foreign.after(&mut LibcOs);
         }
         total.peak_live = total.peak_live.max(st.peak_live);
         total.churned += st.churned;
         total.calls += st.calls;
         total.failed += st.failed;
         let s = heap.0.verif_stats();
-        println!("R {} {} {} {}", rep, s.footprint / 4096, st.failed, vmsize_pages().saturating_sub(base_vm));
+        println!("R {} {} {} {}", rep, s.footprint / 4096, st.failed, vmsize_pages().saturating_sub(base_vm + (foreign.bytes / 4096) as u64));
     }
     marker::end(4, 0, 0, 0, 0);
-    println!("S {} {} {}", total.peak_live, total.churned, total.calls);
+    println!("S {} {} {} 0 {} {}", total.peak_live, total.churned, total.calls, max_segments, foreign.mapped);
 }
 
 fn steady(a: &vh::Args) {
@@ -106,6 +144,9 @@ fn steady(a: &vh::Args) {
     let mut heap = Private(Dlmalloc::new());
     let mut total = RepStats::default();
     let base_vm = vmsize_pages();
+    let mut foreign = foreign_of(a);
+    let mut fr = Prng::new(a.seed ^ 0xF0E1);
+    let mut max_segments = 0usize;
     let mut ix = 0u64;
     println!("B 0");
     marker::begin(4, 1, 0);
@@ -113,8 +154,11 @@ fn steady(a: &vh::Args) {
     for rep in 0..a.budget {
         let mut st = RepStats::default();
         let mut sample = |h: &mut Private| {
+            // a foreign mapping at every sample point inside the steady phase
+            unsafe { foreign.before(&mut LibcOs, &mut fr) };
             let s = h.0.verif_stats();
-            println!("R {} {} 0 {}", ix, s.footprint / 4096, vmsize_pages().saturating_sub(base_vm));
+            max_segments = max_segments.max(s.segments);
+            println!("R {} {} 0 {}", ix, s.footprint / 4096, vmsize_pages().saturating_sub(base_vm + (foreign.bytes / 4096) as u64));
             ix += 1;
         };
         unsafe { steady_rep(&mut heap, &p, a.seed ^ rep, &mut slots, &mut extra, &mut st, &mut sample) };
@@ -123,10 +167,11 @@ fn steady(a: &vh::Args) {
         total.calls += st.calls;
         total.failed += st.failed;
         total.primed += st.primed;
+        unsafe { foreign.after(&mut LibcOs) };
         let s = heap.0.verif_stats();
-        println!("R {} {} {} {}", ix, s.footprint / 4096, st.failed, vmsize_pages().saturating_sub(base_vm));
+        println!("R {} {} {} {}", ix, s.footprint / 4096, st.failed, vmsize_pages().saturating_sub(base_vm + (foreign.bytes / 4096) as u64));
         ix += 1;
     }
     marker::end(4, 1, 0, 0, 0);
-    println!("S {} {} {} {}", total.peak_live, total.churned, total.calls, total.primed);
+    println!("S {} {} {} {} {} {}", total.peak_live, total.churned, total.calls, total.primed, max_segments, foreign.mapped);
 }
